@@ -1957,6 +1957,11 @@ func TestVerifC14(t *testing.T) {
 			e.replayInts(ic, c14catalogue(t))
 			return
 		}
+		var pc c14pCase
+		if err := r.ReplayCase(&pc); err == nil && pc.Part == "canon-parsigex" {
+			e.replayCanon(pc)
+			return
+		}
 		var c c14case
 		if err := r.ReplayCase(&c); err != nil {
 			t.Fatalf("replay: %v", err)
@@ -2010,6 +2015,13 @@ func TestVerifC14(t *testing.T) {
 		t0 := time.Now()
 		e.partFrames(first)
 		r.Count("ms_frames", int(time.Since(t0).Milliseconds()))
+	}
+
+	// ---- sets with several entries in every wire order of the entries (zz_verif_c14canon_test.go) --------------
+	if only == "" {
+		t0 := time.Now()
+		e.partCanon(units)
+		r.Count("ms_canon_parsigex", int(time.Since(t0).Milliseconds()))
 	}
 
 	// ---- small-scope values of every integer field (zz_verif_c14ints_test.go) ----------------------------
